@@ -13,7 +13,7 @@ From Coq Require Import String.
 From Coq Require Import List Ascii ZArith Bool.
 From CGV Require Import Base.PyBase Base.PyVal Base.NxGraph Gen.HydroGen Hydro.Hydrogens Hydro.Squash
      Hydro.SquashDefs Hydro.SquashProofs Hydro.SquashTotal Hydro.ShareProofs Hydro.QuotientDefs Hydro.QuotientProofs Hydro.BangBonds Hydro.BangGraph.
-From CGV Require Compose.Statements Compose.CutModel Compose.CutSkeleton Compose.GraphAdj Hydro.ShareCut Hydro.ShareCutTotal Hydro.SquashTotalAny Hydro.QuotientAttrs Hydro.NumTotal Hydro.ShareCutFull Hydro.ShareCutExamples.
+From CGV Require Compose.Statements Compose.CutModel Compose.CutSkeleton Compose.GraphAdj Hydro.ShareCut Hydro.ShareCutTotal Hydro.SquashTotalAny Hydro.QuotientAttrs Hydro.NumTotal Hydro.ShareCutFull Hydro.ShareCutExamples Hydro.ShareCutImpl.
 From CGV Require Hydro.HydroCheck Hydro.SquashCheck.
 From CGV Require Resolve.GraphOps Resolve.CopyProofs Resolve.Bonding.
 Import ListNotations.
@@ -470,6 +470,16 @@ Theorem C10_share_vs_cut_resolver_full : forall C D L aa orig fdC BC fdD BD,
 Proof. exact ShareCutFull.share_vs_cut_resolver_full. Qed.
 Definition C10_share_vs_cut_resolver_full_instance := CGV.Hydro.ShareCutExamples.share_vs_cut_resolver_full_instance.
 
+(** ... and ON THE IMPLEMENTATION'S DATA (Hydro/ShareCutImpl.v over Gen/HydroCutGen.v, recorded on every run by
+    running /repo on one description with a three-fold shared atom, written with `!`, with `$`, and as the
+    molecule's own cut): every hypothesis of C10_share_vs_cut_resolver_full is decided on the dictionaries and
+    base graphs the reader produces; the `!` input is read as the `$` input with the texts of s and t rewritten;
+    the model's bonded and squashed graphs ARE the graphs the implementation builds (literal equality), so the
+    theorem's conclusion is a statement about them *)
+Definition C10_impl_hypotheses := CGV.Hydro.ShareCutImpl.impl_hypotheses.
+Definition C10_impl_bang_is_renamed_dollar := CGV.Hydro.ShareCutImpl.impl_bang_is_renamed_dollar.
+Definition C10_impl_share_vs_cut := CGV.Hydro.ShareCutImpl.impl_share_vs_cut.
+
 (** the compose component's half (Compose/SharedCut.v, cited from Compose/Statements.v; built on BangGraph and
     C10_squash_quotient): the `!`-written templates of a well-formed cut resolve to the written molecule's skeleton
     with those texts rewritten; squash_atoms contracts exactly the cut bonds that are `$` pairs with a label in L;
@@ -557,6 +567,9 @@ Print Assumptions C10_squash_total_inputs.
 Print Assumptions C10_hnum_dict_decidable.
 Print Assumptions C10_share_vs_cut_resolver_full.
 Print Assumptions C10_share_vs_cut_resolver_full_instance.
+Print Assumptions C10_impl_hypotheses.
+Print Assumptions C10_impl_bang_is_renamed_dollar.
+Print Assumptions C10_impl_share_vs_cut.
 Print Assumptions C10_shared_bonding_skeleton.
 Print Assumptions C10_bang_items_sound.
 Print Assumptions C10_bang_items_complete.
